@@ -402,10 +402,18 @@ def load_harness(an, kvn, dim, with_geo, physical, vec):
         Jac = sx.symarray('J', tuple(nq) + (dim, dim)) if with_geo else None
         Gv = sx.symarray('g', tuple(nq) + (dim,)) if with_geo else None
         seen = {}
+        class _KV1:          # what the public attributes of a degree-1, single-span knot vector look like
+            p = 1; numspans = 1; numdofs = 2; numknots = 4
+            def support(self, j=None): return (0.0, 1.0)
         class Geo:
-            sdim = dim
-            def grid_eval(self, grid): seen['geo_grid'] = grid; return Gv
-            def grid_jacobian(self, grid): return Jac
+            # stands for a (multi)linear B-spline map: an instance of bspline.BSplineFunc with degree-1 single-span knot vectors --
+            # its Jacobian is NOT constant (bilinear / trilinear map), every node has its own symbolic Jacobian
+            sdim = dim; dim_ = dim
+            kvs = tuple(_KV1() for _ in range(dim))
+            def _sub(self, arr, grid): return arr[np.ix_(*[range(len(g)) for g in grid])]       # values at the nodes actually asked for
+            def grid_eval(self, grid): seen['geo_grid'] = grid; return self._sub(Gv, grid)
+            def grid_jacobian(self, grid): return self._sub(Jac, grid)
+        an['bspline'].BSplineFunc = Geo
         if physical:
             al, be = S('al'), S('be')
             if dim == 2: fn = lambda x, y: al * x + y * y * be
@@ -569,6 +577,11 @@ elif kind == 'load':
     if abs(v - (1.5 + 1.0 / 3)) > 1e-12: bad.append('integrate (parametric polynomial)')
     ip = assemble.inner_products(kvs, g)
     if abs(ip.sum() - (1.5 + 1.0 / 3)) > 1e-12: bad.append('inner_products: sum over the partition of unity')
+    # a non-affine degree-1 (bilinear) B-spline map: the trapezoid (0,0),(2,0),(1,1),(0,1) has area 3/2 and int x = 7/6
+    trap = bspline.BSplineFunc(2 * (bspline.make_knots(1, 0.0, 1.0, 1),), np.array([[[0.0, 0.0], [2.0, 0.0]], [[0.0, 1.0], [1.0, 1.0]]]))
+    if abs(assemble.integrate(kvs, lambda x, y: 1.0 + 0 * x, geo=trap) - 1.5) > 1e-12: bad.append('integrate: area of a bilinear (degree-1 B-spline) image')
+    if abs(assemble.integrate(kvs, lambda x, y: x, f_physical=True, geo=trap) - 7.0 / 6.0) > 1e-12: bad.append('integrate: first moment over a bilinear image')
+    if abs(assemble.inner_products(kvs, lambda x, y: 1.0 + 0 * x, geo=trap).sum() - 1.5) > 1e-12: bad.append('inner_products: partition of unity over a bilinear image')
     for A in (np.array([[2.0, 1.0], [0.5, 3.0]]), np.array([[1.0, 2.0], [3.0, 0.5]])):       # second one: orientation reversing (det < 0)
         aff = geometry.unit_square().apply_matrix(A)
         if abs(assemble.integrate(kvs, lambda x, y: 1.0 + 0 * x, geo=aff) - abs(np.linalg.det(A))) > 1e-12: bad.append('integrate: area of an affine image')
